@@ -56,3 +56,35 @@ def describe(r):
         d['reward'] = m(sx.znum(r.reward))
         d['done'] = m(sx.zbool(r.done))
     return d
+
+
+def prefer(r):
+    """soft preferences for counterexamples: as few compromised hosts as possible, permissive
+    firewalls, no host-firewall denies, dyadic probability / draw -- models that are easy to reach
+    from reset() and replay exactly in floating point"""
+    w = r.w
+    prefs = []
+    if getattr(r, 'step', None) is not None and r.step.p is not None and not z3.is_rational_value(r.step.p):
+        p = r.step.p
+        k = z3.Int('pref_pk')
+        prefs.append(z3.And(p * 8 == z3.ToReal(k)))
+        if r.step.u is not None and r.ndraws:
+            j = z3.Int('pref_uk')
+            prefs.append(r.step.u * 16 == z3.ToReal(j))
+    t = r.A.target if getattr(r, 'A', None) is not None else None
+    for a in w.addrs:
+        if a != t:
+            prefs.append(r.st[a]['comp'] == 0)
+    if t is not None:
+        prefs.append(r.st[t]['comp'] == 0)
+    for bits in w.FW.values():
+        for b in bits.values():
+            prefs.append(sx.zbool(b))
+    for a in w.addrs:
+        for g, bits in w.deny[a].items():
+            for b in bits.values():
+                prefs.append(z3.Not(sx.zbool(b)))
+    for a in w.addrs:
+        for b in w.srv[a].values():
+            prefs.append(sx.zbool(b))
+    return prefs
